@@ -11,6 +11,7 @@
               C13_percent_last_read) and, informationally, whether that total is not the current one. -/
 import PsutilModel.Base.Proto
 import PsutilModel.Model.C13Gen
+import PsutilModel.Spec.C13Bind
 import PsutilModel.Spec.C13
 open Lean Psutil Psutil.Proto Psutil.C13 Psutil.C13.Spec
 
@@ -197,7 +198,7 @@ def handleShape (j : Json) : R Json := do
             else Json.null
   return jObj [("model", m), ("spec", sp)]
 
-def handle (_ : Unit) (j : Json) : R (Unit × Json) := do
+def handleCase (_ : Unit) (j : Json) : R (Unit × Json) := do
   let op ← strF j "op"
   if op == "shape" then return ((), ← handleShape j)
   let pagesize ← natF j "pagesize"
@@ -310,5 +311,112 @@ def handle (_ : Unit) (j : Json) : R (Unit × Json) := do
       ("model", jObj (modelAll probe zombie hasRollup pagesize rollup smaps statm pcts)),
       ("spec", spec)] ++ fullCls ++ fineInfo ++ ho))
   else .error s!"unknown op {op}"
+
+/-! ### op "bind": several procfs trees, PROCFS_PATH re-pointed between construction and calls
+
+   {"op": "bind", "roots": [<case line> | null, …], "steps": [{"op": "point", "r": i} | {"op": "new"} |
+    {"op": "call", "k": handle, "m": "info"|"full"|"maps"|"grouped"|"pct", "memtype": …, "total": …} |
+    {"op": "enter"|"exit", "k": handle}]}
+   Every root is rendered and judged by the "case" handler (files, single-process spec); the model
+   answer of a step is `runB cfg bcfg`, the spec answer is the single-process spec of the tree
+   psutil pointed at when the object was CREATED (C13_figures_describe_the_bound_process /
+   C13_history_figures). -/
+
+def parseMeth (j : Json) : R Meth := do
+  let m ← strF j "m"
+  if m == "info" then return .info
+  else if m == "full" then return .full
+  else if m == "maps" then return .maps
+  else if m == "grouped" then return .grouped
+  else if m == "pct" then return .pct (← strF j "memtype") (← optF asInt j "total")
+  else .error s!"bad method {m}"
+
+def parseBStep (j : Json) : R BStep := do
+  let op ← strF j "op"
+  if op == "point" then return .point (← natF j "r")
+  else if op == "new" then return .new
+  else if op == "call" then return .call (← natF j "k") (← parseMeth j)
+  else if op == "enter" then return .enter (← natF j "k")
+  else if op == "exit" then return .exit (← natF j "k")
+  else .error s!"bad bind step {op}"
+
+def jAns : Ans → Json
+  | .nums r => jRes (jList jNat) r
+  | .rows r => jRes (jList jRow) r
+  | .grows r => jRes (jList jGRow) r
+  | .rat r => jRes jRat r
+  | .ctor r => jRes (fun _ => Json.null) r
+  | .noObject => jObj [("noObject", Json.bool true)]
+  | .unit => Json.null
+
+/-- what the "case" handler printed for one root: its files and its single-process spec -/
+structure RootOut where
+  tree : Tree
+  spec : Json
+
+def specOfCall (ro : RootOut) : Meth → Json
+  | .info => (ro.spec.getObjVal? "info").toOption.getD Json.null
+  | .full => (ro.spec.getObjVal? "full").toOption.getD Json.null
+  | .maps => (ro.spec.getObjVal? "maps").toOption.getD Json.null
+  | .grouped => (ro.spec.getObjVal? "grouped").toOption.getD Json.null
+  | .pct mt tot =>
+    match (ro.spec.getObjVal? "full").toOption.bind (fun f => (f.getObjVal? "ok").toOption) with
+    | some v =>
+      match asList asNat v with
+      | .ok vals => specPct vals ⟨mt, tot, 0⟩
+      | .error _ => Json.null
+    | none => Json.null
+
+/-- spec side of a bind history, from the per-root specs: an object answers for the tree that was
+    current when it was created (state kept here, independently of the model's) -/
+def specBind (roots : List (Option RootOut)) : List BStep → Nat → List Nat → List Json
+  | [], _, _ => []
+  | st :: rest, cur, objs =>
+    match st with
+    | .point r => Json.null :: specBind roots rest r objs
+    | .new =>
+      match (roots[cur]?).join with
+      | some _ => jObj [("ok", Json.null)] :: specBind roots rest cur (objs ++ [cur])
+      | none => jObj [("exc", Json.str "NoSuchProcess")] :: specBind roots rest cur objs
+    | .call k m =>
+      (match objs[k]? with
+        | none => jObj [("noObject", Json.bool true)]
+        | some o =>
+          match (roots[o]?).join with
+          | some ro => specOfCall ro m
+          | none => jObj [("noObject", Json.bool true)]) :: specBind roots rest cur objs
+    | .enter _ => Json.null :: specBind roots rest cur objs
+    | .exit _ => Json.null :: specBind roots rest cur objs
+
+def handleBind (j : Json) : R Json := do
+  let rootsJ ← listF (asOpt pure) j "roots"
+  let pagesize ← natF j "pagesize"
+  let hasRollup ← boolF j "hasRollup"
+  let probe ← field j "probe" >>= parseProbe
+  let outs : List (Option (RootOut × Json)) ← rootsJ.mapM fun (r : Option Json) =>
+    match r with
+    | none => pure none
+    | some c => do
+      let (_, o) ← handleCase () c
+      let files ← field o "files"
+      let mode ← strF c "rollup"
+      let rb ← bytesF files "rollup"
+      let t : Tree := { statm := ← bytesF files "statm", smaps := ← bytesF files "smaps",
+                        rollup := ← parseRollupMode mode rb, zombie := ← boolF c "zombie" }
+      let sp := (o.getObjVal? "spec").toOption.getD Json.null
+      pure (some (⟨t, sp⟩, o))
+  let steps ← listF parseBStep j "steps"
+  let world : World := outs.map (Option.map (·.1.tree))
+  let env : Env := ⟨pagesize, hasRollup, probe⟩
+  let model := runB cfg bcfg env world steps ⟨0, []⟩
+  let spec := specBind (outs.map (Option.map (·.1))) steps 0 []
+  let stepsJ := (model.zip spec).map fun (a, sp) => jObj [("model", jAns a), ("spec", sp)]
+  return jObj [("roots", jList (fun o => match o with | some (_, out) => out | none => Json.null) outs),
+               ("steps", Json.arr stepsJ.toArray)]
+
+def handle (u : Unit) (j : Json) : R (Unit × Json) := do
+  let op ← strF j "op"
+  if op == "bind" then return ((), ← handleBind j)
+  handleCase u j
 
 def main : IO Unit := Proto.run () (total handle)
